@@ -71,6 +71,9 @@ pub enum Ev {
     /// a delta that resets the observer's copy of the member (watermark raised, stored heartbeat
     /// back to 0); only used by the `with-copy-resets` part
     Reset,
+    /// a delta (relayed by a third party) that advances the member's key-values by one version:
+    /// data about a member is not evidence that it is alive
+    Delta,
 }
 
 pub const ALPHABET: [Ev; 10] = [Ev::Fresh, Ev::FreshRelay, Ev::Equal, Ev::Lower, Ev::AdvA, Ev::AdvB, Ev::AdvMax, Ev::AdvMaxPlus, Ev::AdvBoundPlus, Ev::Eval];
@@ -94,10 +97,11 @@ impl Ev {
             Ev::Lower2 => "hb-two-below",
             Ev::AdvGracePlus => "advance-dead-node-grace+1ms",
             Ev::Reset => "copy-reset-by-a-delta",
+            Ev::Delta => "delta-advancing-the-member's-state",
         }
     }
     pub fn from_name(s: &str) -> Option<Ev> {
-        ALPHABET.iter().copied().chain([Ev::Lower2, Ev::AdvGracePlus, Ev::Reset]).find(|e| e.name() == s)
+        ALPHABET.iter().copied().chain([Ev::Lower2, Ev::AdvGracePlus, Ev::Reset, Ev::Delta]).find(|e| e.name() == s)
     }
     pub fn advance_ms(self, c: &FdCfg) -> Option<u64> {
         Some(match self {
@@ -137,13 +141,15 @@ pub struct Observer {
     pub usable_intervals: u64,
     /// watermark of the last resetting delta
     pub reset_gc: u64,
+    /// max version of the member's state as advanced by `Delta` events
+    pub data_version: u64,
 }
 
 impl Observer {
     pub fn new(cfg: FdCfg) -> Observer {
         let fd = FailureDetectorConfig::new(cfg.phi, cfg.window, Duration::from_millis(cfg.max_ms), Duration::from_millis(cfg.initial_ms), if cfg.grace_ms == 0 { Duration::from_secs(100_000_000) } else { Duration::from_millis(cfg.grace_ms) });
         let node = Node::new(&Id::v4("obs", 1, 10_001), &NodeOpts { fd, ..Default::default() });
-        Observer { node, cfg, highest: 0, fresh_count: 0, last_fresh_at: None, now: 0, relay_hb: 0, last_observation_at: None, usable_intervals: 0, reset_gc: 0 }
+        Observer { node, cfg, highest: 0, fresh_count: 0, last_fresh_at: None, now: 0, relay_hb: 0, last_observation_at: None, usable_intervals: 0, reset_gc: 0, data_version: 0 }
     }
 
     fn deliver(&mut self, hb: u64, relay: bool) {
@@ -198,8 +204,18 @@ impl Observer {
                     self.deliver(hb, true);
                 }
             }
+            Ev::Delta => {
+                if self.highest > 0 {
+                    let from = self.data_version;
+                    self.data_version += 1;
+                    let ops = vec![crate::codec::Op::Node { id: x_id(), gc: self.reset_gc, from }, crate::codec::Op::Kv { key: format!("k{}", self.data_version), value: "v".into(), version: self.data_version, status: 0 }];
+                    let m = real::build_real(&Msg::Ack { ops }).unwrap();
+                    self.node.cc.verif_process_message(m);
+                }
+            }
             Ev::Reset => {
                 if self.highest > 0 {
+                    self.data_version = 0;
                     self.reset_gc += 1;
                     let m = real::build_real(&Msg::Ack { ops: vec![crate::codec::Op::Node { id: x_id(), gc: self.reset_gc, from: 0 }] }).unwrap();
                     self.node.cc.verif_process_message(m);
@@ -662,6 +678,61 @@ pub fn two_lives(cfg: &FdCfg) -> (Tally, Vec<Viol>) {
     (tally, viols)
 }
 
+/// The deadline clause with other traffic about the member during its silence: after a live phase
+/// the member falls silent; meanwhile relays deliver deltas advancing its key-values and / or a
+/// delta resets the observer's copy; no heartbeat of any kind arrives. After bound + 1 ms the
+/// member must be dead: data about a member is no evidence of life, and a reset must not take the
+/// member out of the detector's sight.
+pub fn silence_with_traffic(cfg: &FdCfg) -> (Tally, Vec<Viol>) {
+    let mut tally = Tally::default();
+    let mut viols = vec![];
+    let step = cfg.a_ms();
+    for &n1 in &[3u64, 10, 70] {
+        for traffic in ["reset-then-silence", "deltas-during-silence", "reset-and-deltas", "silence-only"] {
+            tally.inc("schedules");
+            let mut o = Observer::new(*cfg);
+            let mut bad: Option<(&'static str, String, String)> = None;
+            let res = guarded(|| {
+                for _ in 0..n1 {
+                    o.step(Ev::Fresh);
+                    o.advance_raw(step);
+                    if let (_, Some(x)) = o.step(Ev::Eval) {
+                        bad = Some(x);
+                        return;
+                    }
+                }
+                if traffic.starts_with("reset") {
+                    o.step(Ev::Reset);
+                }
+                let mut waited = 0u64;
+                while waited <= cfg.bound_ms() {
+                    if traffic.contains("deltas") {
+                        o.step(Ev::Delta);
+                    }
+                    o.advance_raw(step);
+                    waited += step;
+                    if let (_, Some(x)) = o.step(Ev::Eval) {
+                        bad = Some(x);
+                        return;
+                    }
+                }
+                o.advance_raw(1);
+                if let (_, Some(x)) = o.step(Ev::Eval) {
+                    bad = Some(x);
+                }
+            });
+            tally.add("evaluations", n1 + cfg.bound_ms() / step + 2);
+            let replay = json!({"engine":"fd","kind":"silence-with-traffic","config":cfg.json(),"live_phase":n1,"traffic":traffic});
+            if let Err(p) = res {
+                viols.push(Viol { prop: "C10", what: format!("panic: {p}"), sig: format!("panic:{}", short_loc(&p)), replay });
+            } else if let Some((p, what, sig)) = bad {
+                viols.push(Viol { prop: p, what: format!("{what} (live phase of {n1} heartbeats every {step} ms, then silence with traffic `{traffic}`; window {})", cfg.window), sig, replay });
+            }
+        }
+    }
+    (tally, viols)
+}
+
 pub fn grid(tier: Tier) -> Vec<FdCfg> {
     let phis: Vec<f64> = tier.pick(vec![0.5, 2.0, 8.0], vec![0.5, 1.0, 2.0, 8.0, 16.0]);
     let windows: Vec<usize> = tier.pick(vec![1, 3, 1000], vec![1, 2, 3, 1000]);
@@ -723,9 +794,9 @@ pub fn run(property: &'static str, tier: Tier, started: Instant) -> Vec<Part> {
     // (with a single value ever delivered, nothing is ever reported to the detector).
     if property == "C11" {
         let d = tier.pick(6usize, 8usize);
-        let alpha = [Ev::Fresh, Ev::Equal, Ev::Lower, Ev::Reset, Ev::AdvA, Ev::AdvMaxPlus, Ev::Eval];
+        let alpha = [Ev::Fresh, Ev::Equal, Ev::Lower, Ev::Reset, Ev::Delta, Ev::AdvA, Ev::AdvMaxPlus, Ev::Eval];
         let mut r = Part::new(&format!("fd/with-copy-resets(depth<={d})"));
-        r.rule = format!("as fd/exhaustive, over the alphabet {{fresh, equal, lower, a delta that resets the observer's copy of the member (stored heartbeat back to 0), advance a, advance max_interval+1ms, evaluate}}, every sequence of length <= {d} ending in an evaluation, two configurations (window 3 and 1000); only the oracle that holds across resets is reported: never live with fewer than two strictly increasing heartbeat values ever delivered (a reset lets already-seen values be reported once more, so observation counts, deadlines and the differential re-run do not apply)");
+        r.rule = format!("as fd/exhaustive, over the alphabet {{fresh, equal, lower, a delta that resets the observer's copy of the member (stored heartbeat back to 0), a relayed delta that advances the member's key-values, advance a, advance max_interval+1ms, evaluate}}, every sequence of length <= {d} ending in an evaluation, two configurations (window 3 and 1000); only the oracle that holds across resets is reported: never live with fewer than two strictly increasing heartbeat values ever delivered (a reset lets already-seen values be reported once more, so observation counts, deadlines and the differential re-run do not apply)");
         let mut viols = vec![];
         for cfg in cfgs.iter().filter(|c| c.phi == 2.0 && c.initial_ms == 1_000 && c.window != 1) {
             let (t, v, capped) = exhaustive_over(cfg, &[], d, property, Instant::now() + Duration::from_secs(tier.pick(10, 900)), Some(&alpha));
@@ -774,10 +845,15 @@ pub fn run(property: &'static str, tier: Tier, started: Instant) -> Vec<Part> {
 
     {
         let mut t2 = Part::new("fd/two-lives");
-        t2.rule = "a first life of n1 in {3, 10, 70, 700, 1100} arrivals every d1, a silence beyond the bound (found dead: the sampling window is reset), a second life of n2 in {1, 2, 3, 63, 64, 65, 130} arrivals every d2, then a silence of bound + 1 ms; d1, d2 in {max/4, max/2, max_interval}; an evaluation after every arrival; same oracle at every evaluation — in particular the member must be dead after the final silence, whatever the first life left behind; configurations with phi = 2 of the grid (windows 1, 3, 1000)".into();
+        t2.rule = "a first life of n1 in {3, 10, 70, 700, 1100} arrivals every d1, a silence beyond the bound (found dead: the sampling window is reset), a second life of n2 in {1, 2, 3, 63, 64, 65, 130} arrivals every d2, then a silence of bound + 1 ms; d1, d2 in {max/4, max/2, max_interval}; an evaluation after every arrival; same oracle at every evaluation — in particular the member must be dead after the final silence, whatever the first life left behind; configurations with phi = 2 of the grid (windows 1, 3, 1000); plus: a live phase, then a silence of bound + 1 ms during which relayed deltas advance the member's key-values and / or a delta resets the observer's copy (no heartbeat of any kind): dead required at the end".into();
         let mut viols = vec![];
         for cfg in cfgs.iter().filter(|c| c.phi == 2.0) {
             let (t, v) = two_lives(cfg);
+            t2.tally.merge(&t);
+            viols.extend(v);
+        }
+        for cfg in cfgs.iter().filter(|c| c.phi == 2.0) {
+            let (t, v) = silence_with_traffic(cfg);
             t2.tally.merge(&t);
             viols.extend(v);
         }
@@ -841,6 +917,13 @@ pub fn replay(v: &Value) -> Result<(), String> {
                 }
             }
             Ok(())
+        }
+        "silence-with-traffic" => {
+            let (_, v) = silence_with_traffic(&cfg);
+            match v.first() {
+                Some(x) => Err(x.what.clone()),
+                None => Ok(()),
+            }
         }
         "two-lives" => {
             let (_, v) = two_lives(&cfg);
